@@ -15,6 +15,8 @@
 package ggql
 
 import (
+	"fmt"
+	"math"
 	"strconv"
 )
 
@@ -67,9 +69,9 @@ func (t *float64Scalar) CoerceOut(v interface{}) (interface{}, error) {
 	case nil:
 		// remains nil
 	case float32:
-		v = float64(tv)
+		v, err = finiteFloat64(float64(tv))
 	case float64:
-		// ok as is
+		v, err = finiteFloat64(tv)
 	case int:
 		v = float64(tv)
 	case int8:
@@ -93,11 +95,20 @@ func (t *float64Scalar) CoerceOut(v interface{}) (interface{}, error) {
 	case string:
 		var f float64
 		if f, err = strconv.ParseFloat(tv, 64); err == nil {
-			v = f
+			v, err = finiteFloat64(f)
 		}
 	default:
 		v = nil
 		err = newCoerceErr(tv, "Float64")
 	}
 	return v, err
+}
+
+// finiteFloat64 rejects NaN and infinity which can not be represented as a
+// (JSON) number.
+func finiteFloat64(f float64) (interface{}, error) {
+	if math.IsNaN(f) || math.IsInf(f, 0) {
+		return nil, fmt.Errorf("%w %v into a Float64, not a finite number", ErrCoerce, f)
+	}
+	return f, nil
 }
